@@ -255,9 +255,14 @@ PLAN = {
     "quick": [dict(harness="c04.single2", bound=2),
               dict(harness="c04.single2tp", bound=1),
               dict(harness="c04.stacks2", bound=1), dict(harness="c04.comb", bound=2)],
-    "thorough": [dict(harness="c04.single2", bound=3),
+    # thorough = quick + one more deviation; for c04.single2 the third deviation is spent on the programs
+    # with a nested submission or a shutdown over the synchronous base (tools/size_plan.py)
+    "thorough": [dict(harness="c04.single2", bound=2),
+                 dict(harness="c04.single2", bound=3,
+                      select=lambda p: p["base"] == "sync" and any(op in ("N", "An", "X") for th in p["prog"] for op in th)),
                  dict(harness="c04.single2tp", bound=2),
-                 dict(harness="c04.stacks2", bound=2),
+                 dict(harness="c04.stacks2", bound=1),
+                 dict(harness="c04.stacks2", bound=2, select=lambda p: any(op in ("N", "An", "X") for th in p["prog"] for op in th)),
                  dict(harness="c04.single2x2", bound=1),
                  dict(harness="c04.single3", bound=2), dict(harness="c04.comb", bound=3)],
 }
